@@ -171,3 +171,57 @@ Section RunFacts.
     destruct (first_some (att1 d) (map to_member D)); reflexivity.
   Qed.
 End RunFacts.
+
+(* ------------------------------------------------------------------ *)
+(* exception classes: the only exception that leaves the emitted union method is its own ValueError *)
+Section RaiseClass.
+  Variable co : skind -> uv -> option uv.
+
+  Lemma pass1_x : forall tms D rest d, Forall wf_mspec D ->
+    run_lines_x co (map (line_for tms) D ++ rest) d =
+    match first_some (att1 d) (map to_member D) with Some x => XRet x | None => run_lines_x co rest d end.
+  Proof.
+    intros tms D rest d H; induction H as [|m r Hm _ IH]; simpl; [reflexivity|].
+    destruct m as [k|e [|] dec]; simpl.
+    - unfold cond_for; simpl. destruct (1 <? tms); simpl; destruct (has_kind k d); [reflexivity | exact IH | reflexivity | exact IH].
+    - simpl in Hm. rewrite (Hm d). reflexivity.
+    - destruct (dec d); [reflexivity | exact IH].
+  Qed.
+
+  Lemma pass2_x : forall D d,
+    run_lines_x co (map LTryRet (filter is_tme D) ++ [LRaise]) d =
+    match first_some (att2 co d) (map to_member D) with Some x => XRet x | None => XValueError end.
+  Proof.
+    induction D as [|m r IH]; intro d; simpl; [reflexivity|].
+    destruct m as [k|e v dec]; simpl; [|apply IH].
+    destruct (coerce co k d); [reflexivity | apply IH].
+  Qed.
+
+  Lemma run_lines_x_app_none : forall l1 l2 d,
+    (forall l, In l l1 -> run_line_x co l d = None) -> run_lines_x co (l1 ++ l2) d = run_lines_x co l2 d.
+  Proof.
+    induction l1 as [|l r IH]; intros l2 d H; simpl; [reflexivity|].
+    rewrite (H l (or_introl eq_refl)). apply IH. intros; apply H; right; assumption.
+  Qed.
+
+  Theorem emit_raise_class : forall ms d, Forall wf_mspec ms ->
+    run_lines_x co (emit ms) d =
+    match union_dec co (map to_member ms) d with Some x => XRet x | None => XValueError end.
+  Proof.
+    intros ms d Hwf. unfold emit.
+    assert (Hok: seen_ok (count_tme ms) est0) by (intros c m []).
+    destruct (fold_step (count_tme ms) ms est0 Hok) as [H1 H2]. simpl in H1, H2.
+    rewrite H1, H2.
+    set (D := dd [] ms).
+    assert (HD: Forall wf_mspec D).
+    { assert (G: forall l seen, Forall wf_mspec l -> Forall wf_mspec (dd seen l)).
+      { induction l as [|m r IH]; intros seen Hl; simpl; [constructor|]. inversion Hl; subst.
+        destruct (existsb (mkey_eqb (mk m)) seen); [apply IH; assumption | constructor; [assumption | apply IH; assumption]]. }
+      apply G; exact Hwf. }
+    rewrite run_lines_x_app_none.
+    2:{ intros l Hl. destruct (1 <? count_tme ms); [destruct Hl as [<-|[]]; reflexivity | destruct Hl]. }
+    rewrite (pass1_x (count_tme ms) D _ d HD). rewrite pass2_x.
+    unfold union_dec, union_run, dedup. rewrite <- dd_dedup. fold D.
+    destruct (first_some (att1 d) (map to_member D)); reflexivity.
+  Qed.
+End RaiseClass.
